@@ -232,3 +232,45 @@ impl Model for SNest {
         l(vec![self.head.to_repr(), self.items.to_repr(), self.tag.to_repr(), self.pair.to_repr()])
     }
 }
+
+/// Two items with the SAME declaration ("Msg") and different definitions, in different modules: a
+/// schema looked up by declaration alone (instead of being compared as a whole) would confuse them.
+pub mod v1 {
+    use super::*;
+    #[derive(BorshSerialize, BorshDeserialize, BorshSchema, Clone, Debug, PartialEq)]
+    pub struct Msg {
+        pub a: u32,
+        pub b: u32,
+    }
+    impl Model for Msg {
+        fn describe() -> String {
+            "(prod (struct Msg (a b) (0 0)) (prim u32) (prim u32))".into()
+        }
+        fn from_val(v: &Val) -> Option<Self> {
+            let f = list(v, 2)?;
+            Some(Msg { a: u32::from_val(&f[0])?, b: u32::from_val(&f[1])? })
+        }
+        fn to_val(&self) -> Val {
+            l(vec![self.a.to_val(), self.b.to_val()])
+        }
+    }
+}
+pub mod v2 {
+    use super::*;
+    #[derive(BorshSerialize, BorshDeserialize, BorshSchema, Clone, Debug, PartialEq)]
+    pub struct Msg {
+        pub id: u64,
+    }
+    impl Model for Msg {
+        fn describe() -> String {
+            "(prod (struct Msg (id) (0)) (prim u64))".into()
+        }
+        fn from_val(v: &Val) -> Option<Self> {
+            let f = list(v, 1)?;
+            Some(Msg { id: u64::from_val(&f[0])? })
+        }
+        fn to_val(&self) -> Val {
+            l(vec![self.id.to_val()])
+        }
+    }
+}
